@@ -22,6 +22,11 @@ pub enum Action {
 	/// Crash inside the next handler call on node at its k-th persist call (after=true: the write landed).
 	CrashInside(usize, u32, bool),
 	Mine,
+	/// Mine k empty blocks and tell every node.
+	MineEmpty(u32),
+	/// Deliver a corrupted copy of the revoke_and_ack at the head of link from→to
+	/// (variant 0: one bit of the secret flipped; 1: the previous secret replayed).
+	TamperRaa(usize, usize, u8),
 	Finish,
 }
 
@@ -40,6 +45,8 @@ pub fn encode_action(a: &Action) -> String {
 		Action::Crash(n, c) => format!("crash:{}:{}", n, c),
 		Action::CrashInside(n, k, a) => format!("crashin:{}:{}:{}", n, k, if *a { 1 } else { 0 }),
 		Action::Mine => "mine".to_string(),
+		Action::MineEmpty(k) => format!("mineempty:{}", k),
+		Action::TamperRaa(f, t, v) => format!("tamper:{}:{}:{}", f, t, v),
 		Action::Finish => "fin".to_string(),
 	}
 }
@@ -79,6 +86,11 @@ pub fn decode_action(s: &str) -> Option<Action> {
 			Action::CrashInside(*v.get(0)? as usize, *v.get(1)? as u32, *v.get(2)? == 1)
 		},
 		"mine" => Action::Mine,
+		"mineempty" => Action::MineEmpty(rest.parse().ok()?),
+		"tamper" => {
+			let v = nums(':');
+			Action::TamperRaa(*v.get(0)? as usize, *v.get(1)? as usize, *v.get(2)? as u8)
+		},
 		"fin" => Action::Finish,
 		_ => return None,
 	})
@@ -92,8 +104,19 @@ pub enum Op {
 	SetFee { node: usize, rate: u32 },
 	Shutdown { node: usize, chan: usize },
 	ForceClose { node: usize, chan: usize },
+	/// Limit probe (C01): read the channel's reported send limits on `node` and send an HTLC at /
+	/// just outside them to the channel peer.
+	Probe { node: usize, chan: usize, kind: ProbeKind },
 	ClaimHeld { pay: usize },
 	FailHeld { pay: usize },
+}
+
+#[derive(Clone, Copy, Debug, PartialEq, Eq)]
+pub enum ProbeKind {
+	AtLimit,
+	AboveLimit,
+	AtMin,
+	BelowMin,
 }
 
 pub trait Oracle {
@@ -120,6 +143,7 @@ pub struct Deviations {
 	pub crash_inside: Option<u32>,
 	/// cost of completing a monitor update out of default order (default: oldest first, immediately)
 	pub complete_reorder: Option<u32>,
+	pub tamper_raa: Option<u32>,
 }
 
 impl Default for Deviations {
@@ -133,6 +157,7 @@ impl Default for Deviations {
 			crash: None,
 			crash_inside: None,
 			complete_reorder: Some(1),
+			tamper_raa: None,
 		}
 	}
 }
@@ -156,6 +181,14 @@ pub struct WorldSys {
 	/// node whose next handler call should crash inside (armed by CrashInside)
 	pub pending_failure: Option<Failure>,
 	pub lazy_manager: bool,
+	pub mines_done: u32,
+	pub jumped: bool,
+	pub tampered: bool,
+	pub last_raa: std::collections::BTreeMap<(usize, usize), lightning::ln::msgs::RevokeAndACK>,
+	/// mine to resolution in the settling phase when a channel was closed on chain
+	pub settle_on_chain: bool,
+	/// (payment index, kind, limit read, minimum read)
+	pub probes: Vec<(usize, ProbeKind, u64, u64)>,
 }
 
 impl WorldSys {
@@ -178,6 +211,12 @@ impl WorldSys {
 			async_on: vec![false; n],
 			pending_failure: None,
 			lazy_manager: false,
+			mines_done: 0,
+			jumped: false,
+			tampered: false,
+			last_raa: Default::default(),
+			settle_on_chain: false,
+			probes: Vec::new(),
 		}
 	}
 
@@ -220,6 +259,14 @@ impl WorldSys {
 		}
 		if !self.ops_first && !self.finished && self.next_op < self.ops.len() {
 			v.push(Action::Op(self.next_op));
+		}
+		if v.is_empty() && self.finished && self.settle_on_chain {
+			// on-chain settling: confirm whatever is in the mempool, then let every timelock expire
+			if !self.w.chain.mempool.is_empty() && self.mines_done < 16 {
+				v.push(Action::Mine);
+			} else if !self.jumped {
+				v.push(Action::MineEmpty(160));
+			}
 		}
 		v
 	}
@@ -266,6 +313,36 @@ impl WorldSys {
 				}
 				self.w.pump();
 			},
+			Op::Probe { node, chan, kind } => {
+				let cid = self.chans[chan];
+				if let Some(cd) = self.w.chan(node, &cid) {
+					let peer = self.w.idx_of(&cd.counterparty.node_id);
+					let (lim, min) = (cd.next_outbound_htlc_limit_msat, cd.next_outbound_htlc_minimum_msat);
+					let amt = match kind {
+						ProbeKind::AtLimit => Some(lim),
+						ProbeKind::AboveLimit => Some(lim + 1),
+						ProbeKind::AtMin => Some(min),
+						ProbeKind::BelowMin => min.checked_sub(1),
+					};
+					let applicable = cd.is_usable
+						&& match kind {
+							ProbeKind::AtLimit | ProbeKind::AtMin => lim >= min && amt.unwrap() > 0,
+							ProbeKind::AboveLimit => true,
+							ProbeKind::BelowMin => min > 1,
+						};
+					self.w.obs.push(Obs::Api {
+						node,
+						what: format!("probe {:?} limit={} min={} applicable={}", kind, lim, min, applicable),
+						ok: applicable,
+						detail: String::new(),
+					});
+					if applicable {
+						self.w.send_payment_ext(node, &[(peer, cid)], amt.unwrap(), ClaimPolicy::Claim, 0, 0);
+						let last = self.w.payments.len() - 1;
+						self.probes.push((last, kind, lim, min));
+					}
+				}
+			},
 			Op::ClaimHeld { pay } => {
 				let (to, pre) = (self.w.payments[pay].to, self.w.payments[pay].preimage);
 				self.w.nodes[to].cm.claim_funds(pre);
@@ -283,6 +360,11 @@ impl WorldSys {
 
 	fn run_oracles(&mut self) -> Result<(), Failure> {
 		let obs = self.w.new_obs();
+		if std::env::var("MC_TRACE").is_ok() {
+			for o in obs.iter() {
+				eprintln!("    {}", crate::world::obs_summary(o));
+			}
+		}
 		for o in self.oracles.iter_mut() {
 			o.observe(&self.w, &obs)?;
 		}
@@ -333,6 +415,18 @@ impl System for WorldSys {
 				}
 			}
 		}
+		if let Some(c) = self.dev.tamper_raa {
+			if !self.tampered {
+				for ((f, t), q) in self.w.links.iter() {
+					if let Some(crate::world::Wire::Raa(_)) = q.front() {
+						out.push((Action::TamperRaa(*f, *t, 0), c));
+						if self.last_raa.contains_key(&(*f, *t)) {
+							out.push((Action::TamperRaa(*f, *t, 1), c));
+						}
+					}
+				}
+			}
+		}
 		if let Some(c) = self.dev.async_persist {
 			for i in 0..n {
 				if !self.async_on[i] {
@@ -345,10 +439,34 @@ impl System for WorldSys {
 
 	fn step(&mut self, a: &Action) -> Result<(), Failure> {
 		self.w.step_count += 1;
+		if std::env::var("MC_TRACE").is_ok() {
+			eprintln!("STEP {}", encode_action(a));
+		}
 		match a {
 			Action::Events(n) => self.w.handle_events(*n),
 			Action::Forward(n) => self.w.forward(*n),
-			Action::Deliver(f, t) => self.w.deliver(*f, *t),
+			Action::Deliver(f, t) => {
+				if let Some(crate::world::Wire::Raa(m)) = self.w.links.get(&(*f, *t)).and_then(|q| q.front()) {
+					self.last_raa.insert((*f, *t), m.clone());
+				}
+				self.w.deliver(*f, *t)
+			},
+			Action::TamperRaa(f, t, variant) => {
+				self.tampered = true;
+				if let Some(crate::world::Wire::Raa(m)) = self.w.links.get_mut(&(*f, *t)).and_then(|q| q.pop_front()) {
+					let mut bad = m.clone();
+					match variant {
+						0 => bad.per_commitment_secret[7] ^= 0x10,
+						_ => {
+							if let Some(prev) = self.last_raa.get(&(*f, *t)) {
+								bad.per_commitment_secret = prev.per_commitment_secret;
+							}
+						},
+					}
+					self.w.obs.push(Obs::Api { node: *t, what: "tamper-raa".into(), ok: true, detail: format!("variant {}", variant) });
+					self.w.deliver_wire(*f, *t, crate::world::Wire::Raa(bad));
+				}
+			},
 			Action::Op(i) => {
 				self.do_op(*i);
 				self.next_op = *i + 1;
@@ -388,7 +506,14 @@ impl System for WorldSys {
 				self.finished = true;
 			},
 			Action::Mine => {
+				self.mines_done += 1;
 				self.w.chain.mine_mempool();
+				self.w.sync_all();
+			},
+			Action::MineEmpty(k) => {
+				self.jumped = true;
+				self.mines_done = 0;
+				self.w.mine_empty(*k);
 				self.w.sync_all();
 			},
 			Action::Crash(..) | Action::CrashInside(..) => {
@@ -400,6 +525,43 @@ impl System for WorldSys {
 
 	fn finish(&mut self) -> Result<String, Failure> {
 		let mut label = String::new();
+		for (pi, kind, lim, min) in self.probes.clone() {
+			use lightning::events::Event;
+			let p = self.w.payments[pi].clone();
+			let add_sent = self.w.obs.iter().any(|o| matches!(o, Obs::Sent { wire: crate::world::Wire::Add(m), .. } if m.payment_hash == p.hash));
+			let sent = self.w.obs.iter().any(|o| matches!(o, Obs::Event { ev: Event::PaymentSent { payment_hash, .. }, .. } if *payment_hash == p.hash));
+			let failed = self.w.obs.iter().any(|o| matches!(o, Obs::Event { ev: Event::PaymentFailed { payment_hash: Some(h), .. }, .. } if *h == p.hash));
+			match kind {
+				ProbeKind::AtLimit | ProbeKind::AtMin => {
+					crate::runner::witness(if kind == ProbeKind::AtLimit { "probe-at-limit" } else { "probe-at-minimum" });
+					if !p.send_ok || !add_sent || !sent {
+						return Err(Failure::new(
+							"send-limits-exact",
+							format!(
+								"HTLC of {} msat inside the reported limits (limit {} min {}) was not carried through: send_ok={} add_sent={} PaymentSent={} PaymentFailed={} ({})",
+								p.amount_msat, lim, min, p.send_ok, add_sent, sent, failed, p.send_err
+							),
+						));
+					}
+				},
+				ProbeKind::AboveLimit | ProbeKind::BelowMin => {
+					crate::runner::witness(if kind == ProbeKind::AboveLimit { "probe-above-limit" } else { "probe-below-minimum" });
+					if add_sent || sent {
+						return Err(Failure::new(
+							"send-limits-exact",
+							format!(
+								"HTLC of {} msat outside the reported limits (limit {} min {}) was not refused locally: add_sent={} PaymentSent={}",
+								p.amount_msat, lim, min, add_sent, sent
+							),
+						));
+					}
+					if p.send_ok && !failed {
+						return Err(Failure::new("send-limits-exact", "refused HTLC produced no PaymentFailed".to_string()));
+					}
+				},
+			}
+			label.push_str(&format!("{:?}:{};", kind, lim));
+		}
 		let mut oracles = std::mem::take(&mut self.oracles);
 		let mut res = Ok(());
 		for o in oracles.iter_mut() {
